@@ -83,4 +83,32 @@ def run(ck):
         ck.cov["evaluations"] += 1
         if o2.get("t%d" % i) != data.hex():
             ck.violation("mode %d decryptor does not restore the encryptor's input" % m, {"class": None, "mode": m, "key": k.hex(), "iv": iv.hex(), "data": data.hex(), "after_roundtrip": o2.get("t%d" % i)})
+    long_streams(ck, exe)
     return finish_proof(ck, rule="per mode and direction: IVs with 0..16 trailing 0xFF bytes (counter carry through every byte), stream lengths 0..11 and random up to 40 blocks (thorough: 300-block streams), random keys; NIST SP 800-38A F.1.1/F.2.1/F.3.13/F.4.1/F.5.1 vectors; factory numbers 5,6,7,100,255; plus encrypt->decrypt round trips on the implementation. distinct = distinct case lines")
+
+
+def long_streams(ck, exe):
+    """one CTR stream object driven far: keystream block j must be E_K(IV + j) (128-bit big-endian addition) however long the
+    stream runs.  quick: 2^16 + 40 blocks; thorough: 2^28 + 64 blocks (4 GiB through one stream: a 32-bit position or byte count
+    inside the stream object wraps there) -- positions around every power of two on the way are sampled"""
+    r = ck.rng
+    mdrv = ck.model_driver()
+    big = ck.tier == "thorough"
+    top = 28 if big else 16
+    for trial in range(2 if big else 1):
+        k = rb(r, 16)
+        iv = rb(r, 8) + (b"\xff" * 8 if trial == 0 else rb(r, 8))
+        pos = sorted(set([0, 1, 2] + [p for e in range(8, top + 1, 4 if big else 8) for p in ((1 << e) - 1, 1 << e, (1 << e) + 1)] + [(1 << top) + 37]))
+        n = pos[-1] + 1
+        out = wv.run_lines([exe], ["l modelong e 2 %s %s %d %s" % (k.hex(), iv.hex(), n, ",".join(str(p) for p in pos))], shards=1, env=dict(ck.env(), WV_TIMEOUT_MS="1200000"), timeout=1500).get("l", "")
+        got = out.split(",")
+        ivn = int.from_bytes(iv, "big")
+        want = wv.run_lines([mdrv, "spec"], ["w%d aes e %s %s" % (i, k.hex(), ((ivn + p) % (1 << 128)).to_bytes(16, "big").hex()) for i, p in enumerate(pos)], shards=1)
+        for i, p in enumerate(pos):
+            ck.cov["evaluations"] += 1
+            g = got[i] if i < len(got) else "(missing)"
+            if g != want.get("w%d" % i):
+                ck.violation("CTR keystream block %d of one stream is not E_K(IV + %d)" % (p, p), {"class": None, "key": k.hex(), "iv": iv.hex(), "block_index": p, "got": g, "expected": want.get("w%d" % i),
+                                                                                                "replay": "x modelong e 2 <key> <iv> %d %d  fed to harness/drv.cpp built from /repo" % (p + 1, p)})
+                break
+    ck.cov["longest_single_stream_blocks"] = (1 << top) + 38
